@@ -203,6 +203,14 @@ def other_constants(repo):
         e, by = const_value(b, "MAX_TAIL_EVENTS"), const_value(b, "MAX_TAIL_BYTES")
         if e and by:
             out["inflight_events"], out["inflight_bytes"] = e, by
+    # the checkpoint-sidecar look-up (single bounded scan that must be complete)
+    pc = os.path.join(repo, "crates/ripd/src/continuity_stream_cache.rs")
+    if os.path.exists(pc):
+        bc = fn_body(strip_comments(open(pc).read()), "latest_compaction_checkpoint_before_or_at_seq_v1")
+        if bc:
+            e, by = const_value(bc, "MAX_BACKSCAN_EVENTS"), const_value(bc, "MAX_BACKSCAN_BYTES")
+            if e and by:
+                out["ckpt_events"], out["ckpt_bytes"] = e, by
     b = fn_body(s, "provider_cursor_status_v1")
     if b:
         k = const_value(b, "MAX_KEYS")
@@ -217,7 +225,7 @@ def other_constants(repo):
 
 
 NEEDED = ["recent_limit", "hier_max_refs", "reverse_chunk", "seek_stride", "inflight_events", "inflight_bytes",
-          "cursor_max_keys", "selection_default_limit", "selection_max_limit"]
+          "cursor_max_keys", "selection_default_limit", "selection_max_limit", "ckpt_events", "ckpt_bytes"]
 
 
 def coq_bool(b):
